@@ -629,9 +629,16 @@ class Describer:
             cnt = n.ev[3]
             rep = skip_noise(n.next)
             if rep is None or rep.kind != "ev" or rep.ev[0] != "repeat" or rep.ev[1] != cnt:
-                return opaque("varint after the regular fields is not followed by a loop over it")
-            out["tagged"] = self.match_tagged_loop(rep.raw[2], n.ev[2])
-            n = skip_noise(rep.next)
+                if rep is not None and rep.kind == "leaf" or rep is None or pure_leaves(rep) is not None:
+                    # the count is read and then nothing is iterated: whatever the peer announced stays in the stream
+                    out["tagged"] = {"count_max_bytes": n.ev[2].get("max_bytes") if isinstance(n.ev[2], dict) else n.ev[2], "arms": {}, "iteration_prefix": None, "size_used": False,
+                                     "miss": {"k": "ignore-without-skipping", "count_unused": True}}
+                    n = rep
+                else:
+                    return opaque("varint after the regular fields is not followed by a loop over it")
+            else:
+                out["tagged"] = self.match_tagged_loop(rep.raw[2], n.ev[2])
+                n = skip_noise(rep.next)
         leaves = pure_leaves(n)
         if leaves is None:
             return opaque("entity reader: stream events after the tagged section")
